@@ -82,6 +82,7 @@ func (fr *Frame) applyCall(instr ssa.Instruction, cc *ssa.CallCommon, recv Val, 
 		key := "iface:" + typeName(cc.Value.Type()) + "." + cc.Method.Name()
 		if c, ok := ex.P.db.Funcs[key]; ok {
 			sig := cc.Method.Type().(*types.Signature)
+			fr.checkImplRequires(cc, recv, args, st)
 			st2, vals := fr.applyContract(c, key, sig, &recv, args, st, pos)
 			bind(vals, rt)
 			return st2
@@ -131,6 +132,12 @@ func (fr *Frame) applyCall(instr ssa.Instruction, cc *ssa.CallCommon, recv Val, 
 			return st2
 		}
 		fr.oblige(st, "nil", exprLabel(fr, cc.Value)+"()", Ne(recv.L[0], Int(0)), pos)
+		if typeName(cc.Value.Type()) == "context.CancelFunc" {
+			// cancel functions only affect their context (not modelled beyond $done)
+			ex.trusted["extern context.CancelFunc values have no effect on program state"] = true
+			bind(nil, rt)
+			return st
+		}
 		st2, vals := fr.havocCall("func value "+exprLabel(fr, cc.Value), map[string]bool{"*": true}, sig, st)
 		ex.unspec["call through function value "+exprLabel(fr, cc.Value)+" in "+funcKey(fr.fn)] = true
 		bind(vals, rt)
@@ -156,7 +163,7 @@ func (fr *Frame) applyCall(instr ssa.Instruction, cc *ssa.CallCommon, recv Val, 
 		bind(vals, rt)
 		return st2
 	}
-	if c, ok := ex.P.db.Funcs[key]; ok && !(c.Props["inline"]) {
+	if c := ex.P.callContract(callee); c != nil && !(c.Props["inline"]) {
 		st2, vals := fr.applyContract(c, key, callee.Signature, nil, args, st, pos)
 		bind(vals, rt)
 		return st2
@@ -468,6 +475,12 @@ func (fr *Frame) applyContract(c *Contract, key string, sig *types.Signature, re
 			lbl = fmt.Sprintf("%d", i)
 		}
 		t := env.evalBool(r.E)
+		if fr.fn.Synthetic != "" && strings.HasPrefix(lbl, "impl:") {
+			// promotion wrappers: implementation-specific preconditions are checked at
+			// the dynamic call sites (checkImplRequires), so they hold here
+			ex.vc.assert(Implies(st.reach, t))
+			continue
+		}
 		fr.obligePos(st, "pre", fmt.Sprintf("%s#%d/%s", shortKey(key), ord, lbl), t, ex.curPos(fr))
 	}
 	// post state
@@ -480,10 +493,19 @@ func (fr *Frame) applyContract(c *Contract, key string, sig *types.Signature, re
 	ex.P.contractKeys(c, keys)
 	targets := map[string][][]Term{} // heap name -> index tuples that may change
 	whole := map[string]bool{}
+	var starRefs []Term
+	var starTypes []types.Type
 	for _, m := range c.Modifies {
 		if m.Whole {
 			whole[m.Key] = true
 			keys[m.Key] = true
+			continue
+		}
+		if m.Star {
+			sv := env.eval(m.E)
+			starRefs = append(starRefs, refOf(sv))
+			starTypes = append(starTypes, sv.T)
+			keys["*"] = true
 			continue
 		}
 		for _, tl := range env.evalLocs(m.E) {
@@ -494,10 +516,32 @@ func (fr *Frame) applyContract(c *Contract, key string, sig *types.Signature, re
 		}
 	}
 	preAlloc := st.alloc
+	keysDeclared := map[string]bool{}
+	for k := range keys {
+		if k != "*" {
+			keysDeclared[k] = true
+		}
+	}
 	ev := &Event{keys: keys, all: keys["*"], label: key}
 	if c.HasMod {
 		ev.frame = func(h *HeapInfo, old, nw Term) {
 			if whole[h.Key] || h.Dim == 0 && len(targets[h.Name]) > 0 {
+				return
+			}
+			if len(starRefs) > 0 && strings.HasPrefix(h.Name, "H$") && h.Dim == 1 && len(targets[h.Name]) == 0 {
+				r := Term{"fr", SInt}
+				var excl []Term
+				for si, sr := range starRefs {
+					if ex.P.starAffects(h, starTypes[si]) {
+						excl = append(excl, Ne(r, sr))
+					}
+				}
+				ex.vc.assert(Forall([]string{"fr"}, Implies(And(excl...), Eq(Select(nw, r), Select(old, r))), Select(nw, r)))
+				return
+			}
+			if len(starRefs) > 0 && !keysDeclared[h.Key] && len(targets[h.Name]) == 0 {
+				// not an object field and not otherwise declared: unchanged
+				ex.vc.assert(Eq(nw, old))
 				return
 			}
 			if h.Dim == 0 {
@@ -580,6 +624,14 @@ func (fr *Frame) applyContract(c *Contract, key string, sig *types.Signature, re
 	for _, e := range c.Ensures {
 		t := env2.evalBool(e.E)
 		ex.vc.assert(Implies(st2.reach, t))
+	}
+	// the callee re-establishes the type invariants of its pointer arguments
+	if fnc, ok := ex.P.funcs[key]; ok && ex.P.inRepo[fnc] && !c.Trusted {
+		for i, a := range all {
+			if i < len(fnc.Params) && isPointer(fnc.Params[i].Type()) && len(a.L) > 0 {
+				ex.P.assumeTypeInvAt(ex, st2, a, fnc.Params[i].Type(), fr)
+			}
+		}
 	}
 	if !fr.inline && fr.contract != nil {
 		st2 = fr.applyGhost(fmt.Sprintf("after %s#%d", shortKey(key), ord), st2)
@@ -694,4 +746,73 @@ func (fr *Frame) checkParamInv(callee *ssa.Function, args []Val, st *State) {
 			fr.oblige(st, "pre", fmt.Sprintf("%s/param %s/%s", funcKey(callee), p.Name(), lbl), safeEval(env, cl), 0)
 		}
 	}
+}
+
+
+// checkImplRequires: preconditions that an implementation's own contract adds
+// beyond the interface contract are checked at the dynamic call site, guarded
+// by the dynamic type (closed world over the implementations in the program).
+func (fr *Frame) checkImplRequires(cc *ssa.CallCommon, recv Val, args []Val, st *State) {
+	ex := fr.ex
+	for _, info := range ex.P.implInfos(cc.Value.Type(), cc.Method) {
+		c := ex.P.contractFor(info.target)
+		if c == nil || len(c.Requires) == 0 {
+			continue
+		}
+		if _, isPtr := under(info.recvT).(*types.Pointer); !isPtr {
+			continue // value receivers: the requires cannot mention receiver memory; skip
+		}
+		tagOK := Eq(recv.L[0], Int(int64(ex.P.tagOf(info.recvT))))
+		rv := Val{T: info.recvT, L: []Term{recv.L[1]}}
+		if len(info.path) > 0 {
+			loc := ex.ptrLoc(rv)
+			for _, f := range info.path {
+				loc.Path += "." + f
+			}
+			rv = Val{T: info.target.Signature.Recv().Type(), L: loc.Idx, P: &loc}
+		}
+		env := ex.newEnv(st, st, fr)
+		env.pkg = contractPkg(c.Func)
+		names := contractParamNames(c, info.target.Signature, false)
+		all := append([]Val{rv}, args...)
+		if len(names) != len(all) {
+			continue
+		}
+		for i, n := range names {
+			env.vars[n] = all[i]
+		}
+		// only clauses that the interface contract does not already carry (labelled impl:)
+		for i, r := range c.Requires {
+			if !strings.HasPrefix(r.Label, "impl:") {
+				continue
+			}
+			lbl := r.Label
+			_ = i
+			fr.oblige(st, "pre", fmt.Sprintf("%s/%s", funcKey(info.target), lbl), Implies(tagOK, safeEval(env, r)), 0)
+		}
+	}
+}
+
+
+// starAffects: can an object denoted by a value of static type t live in heap h?
+func (P *Prog) starAffects(h *HeapInfo, t types.Type) bool {
+	if t == nil || !strings.HasPrefix(h.Name, "H$") {
+		return true
+	}
+	rest := h.Name[2:]
+	i := strings.Index(rest, "$")
+	if i < 0 {
+		return true
+	}
+	root := P.lookupNamedType(rest[:i])
+	if root == nil {
+		return true
+	}
+	switch u := under(t).(type) {
+	case *types.Interface:
+		return types.Implements(root, u) || types.Implements(types.NewPointer(root), u)
+	case *types.Pointer:
+		return typeName(u.Elem()) == rest[:i]
+	}
+	return true
 }
